@@ -3,6 +3,7 @@ import Dagrt.Driver.Kinds
 import Dagrt.Driver.C10
 import Dagrt.Driver.C04
 import Dagrt.Driver.C05
+import Dagrt.Driver.C08
 open Lean Dagrt.Driver
 
 def dispatch (j : Json) : R Json := do
@@ -11,6 +12,7 @@ def dispatch (j : Json) : R Json := do
   | ["C05", o] => C05.handle o j
   | ["C06", o] => C06.handle o j
   | ["C04", o] => C04.handle o j
+  | ["C08", o] => C08.handle o j
   | ["C10", o] => C10.handle o j
   | ["C14", o] => Kinds.handle o j
   | ["C09", o] => Kinds.handle o j
